@@ -19,6 +19,8 @@ pub fn run(prop: &str, tier: &str, seed: u64, workers: usize) -> Report {
         run_many(&mut rep, seed, 104, n_arr, w, nw, &a, &props);
         // C01 only: delete sets applied to real stores (holes included) against the transcription of apply_delete
         if prop == "C01" { let mut md = crate::model::Model::spawn(); for ci in 0..n_adl { if ci as usize % nw == w { if let Err(e) = crate::report::catch(std::panic::AssertUnwindSafe(|| crate::adl::case(seed, ci, &mut md, &mut rep))) { rep.fail(serde_json::json!({"property": "C01", "class": "panic", "error": e, "case": {"stream": 130, "index": ci, "seed": seed}})); md = crate::model::Model::spawn(); } } } }
+        // C01 / C04: the block-level transcription of Item::integrate (Crdt/YataBlocks.v) on editor sessions
+        if prop == "C01" || prop == "C04" { let n_yib: u64 = if thorough { 12000 } else { 3000 }; let mut md = crate::model::Model::spawn(); for ci in 0..n_yib { if ci as usize % nw == w { if let Err(e) = crate::report::catch(std::panic::AssertUnwindSafe(|| crate::yib::case(seed, ci, &mut md, &mut rep))) { rep.fail(serde_json::json!({"property": prop, "class": "panic", "error": e, "case": {"stream": 140, "index": ci, "seed": seed}})); } } } }
         let ty = HistCfg { focus: Focus::Typing, max_steps: 16, max_replicas: 3, exhaustive_perms: true, model: true };
         run_many(&mut rep, seed, 105, n_typing, w, nw, &ty, &props);
         rep
